@@ -12,9 +12,12 @@ GEN_MODULES = ['excelutil', 'aggregates', 'stats']
 ASSUMPTIONS = [
     "the theorems (coq/Props/C05.v) are corollaries of the C01 machine: evaluation order and repetition "
     "cannot change a value because every evaluate returns the from-scratch specification",
-    "access through unbounded ranges (A:A, 1:1), address lists and sheet-less addresses is judged on the "
-    "implementation by the oracle only (the clipping to the used area is openpyxl/excelwrapper code that "
-    "is not modelled)",
+    "address lists / tuples / generators are modelled by coq/Model/C05List.v evaluate_list (the left-to-right "
+    "fold of evaluate of _evaluate_non_iterative; theorems C05_list_path, C05_same_members, C05_permutation; "
+    "stream list-model compares it with the implementation); the reference node of an unbounded range is "
+    "covered by C05_unbounded_path given WHICH bounded range it stands for - the clipping of A:A / 1:1 to the "
+    "used area (openpyxl/excelwrapper code) and the resolution of a sheet-less address against the active sheet "
+    "are not modelled and are judged on the implementation by the oracle only",
     "CSE array formulas, tables / structured references, formulas returning a reference (OFFSET, INDIRECT) and "
     "range operations (intersection, computed corners), sheet names that need quotes and merged areas are outside "
     "the machine (the reference cell of a whole-column range is inside it in the order-colb stream only: a node of "
@@ -215,6 +218,136 @@ def _stream_dag_colb(ctx):
         "of column B; value = the target evaluated alone by a fresh compiler = the graph machine's")
 
 
+def _stream_list_model(ctx):
+    """Correspondence leg of C05_list_path / C05_permutation: ExcelCompiler.evaluate on a list / tuple /
+    generator of addresses (shuffled, with repetitions, after a random history of single evaluations)
+    against Model/C05List.v evaluate_list on the extracted machine; oracle: every position = the cell
+    evaluated alone by a fresh compiler."""
+    from pycel import ExcelCompiler
+    rng = ctx.rng
+    nwb = ctx.n(16, 200)
+    calls, meta, hcalls, hmeta = [], [], [], []
+    for k in range(nwb):
+        wb = wbgen.gen_workbook(rng, ncells=rng.randrange(4, 7), pool=wbgen.CLEAN_POOL + [None, 0, 1, True],
+                                blank_results=False)
+        cells = wb.cells()
+        desc = [(x['addr'], x.get('value'), x.get('text')) for x in wb.nodes]
+        ref = ExcelCompiler(excel=wb.to_openpyxl())
+        refv = {i: canon(ref.evaluate(wb.nodes[i]['addr'])) for i in cells}
+        for rep in range(3):
+            prefix = rng.sample(cells, rng.randrange(0, 3))
+            members = [rng.choice(cells) for _ in range(rng.randrange(1, 2 * len(cells)))]
+            kind = ('list', 'tuple', 'generator')[rep]
+            addrs = [wb.nodes[i]['addr'] for i in members]
+            arg = addrs if kind == 'list' else tuple(addrs) if kind == 'tuple' else (a for a in addrs)
+            case = dict(call='list-model', workbook=desc, args=[kind, addrs],
+                        history=[wb.nodes[i]['addr'] for i in prefix])
+            c = ExcelCompiler(excel=wb.to_openpyxl())
+            try:
+                for i in prefix:
+                    c.evaluate(wb.nodes[i]['addr'])
+                val = c.evaluate(arg)
+            except Exception as exc:      # noqa: BLE001
+                ctx.violation(case, f"evaluate({kind}) raises {type(exc).__name__}: {exc}"[:200])
+                continue
+            ctx.count(('list-model', k, rep), kind='list-model')
+            want_type = list if kind == 'list' else tuple
+            if type(val) is not want_type:
+                ctx.violation(case, f"evaluate({kind}) returns a {type(val).__name__}", impl=canon(val))
+                continue
+            got = [canon(v) for v in val]
+            want = [refv[i] for i in members]
+            if got != want:
+                ctx.violation(case, "a member of an address list differs from the cell evaluated alone",
+                              impl=got, expected=want)
+            # C05_permutation / C05_same_members on the implementation: a second compiler, same history, the
+            # members shuffled (and one of them repeated) - same value per address and the same final cell map
+            snap = wbgen.snapshot(c, wb)
+            other = list(members) + [rng.choice(members)]
+            rng.shuffle(other)
+            c2 = ExcelCompiler(excel=wb.to_openpyxl())
+            try:
+                for i in prefix:
+                    c2.evaluate(wb.nodes[i]['addr'])
+                val2 = c2.evaluate([wb.nodes[i]['addr'] for i in other])
+            except Exception as exc:      # noqa: BLE001
+                ctx.violation(dict(case, permuted=[wb.nodes[i]['addr'] for i in other]),
+                              f"evaluate(permuted list) raises {type(exc).__name__}: {exc}"[:200])
+                continue
+            got2 = {i: canon(v) for i, v in zip(other, val2)}
+            if any(got2[i] != refv[i] for i in other):
+                ctx.violation(dict(case, permuted=[wb.nodes[i]['addr'] for i in other]),
+                              "a member of a permuted address list differs from the cell evaluated alone",
+                              impl=[got2[i] for i in other], expected=[refv[i] for i in other])
+            snap2 = wbgen.snapshot(c2, wb)
+            if snap2 != snap:
+                ctx.violation(dict(case, permuted=[wb.nodes[i]['addr'] for i in other]),
+                              "the final cell map / cached values depend on the order of the address list",
+                              impl=snap2, expected=snap)
+            calls.append(('evlist', [wb.wire(), [[0, i] for i in prefix], list(members)]))
+            meta.append((case, got, snap))
+        # C05_history_order: the same Build (= _gen_graph, compiled but not evaluated) / Evaluate operations in
+        # two orders, the second with one operation repeated: equal final cell maps and cached values
+        ops = [(rng.choice((0, 0, 2)), rng.choice(cells)) for _ in range(rng.randrange(2, 7))]
+        ops2 = ops + [rng.choice(ops)]
+        rng.shuffle(ops2)
+        snaps = []
+        hcase = dict(call='history-order', workbook=desc,
+                     args=[[('evaluate' if o == 0 else 'build', wb.nodes[i]['addr']) for o, i in ops],
+                           [('evaluate' if o == 0 else 'build', wb.nodes[i]['addr']) for o, i in ops2]])
+        try:
+            for seq in (ops, ops2):
+                ch = ExcelCompiler(excel=wb.to_openpyxl())
+                for o, i in seq:
+                    if o == 0:
+                        if canon(ch.evaluate(wb.nodes[i]['addr'])) != refv[i]:
+                            ctx.violation(hcase, f"value of {wb.nodes[i]['addr']} depends on the history")
+                    else:
+                        ch._gen_graph(wb.nodes[i]['addr'])
+                snaps.append(wbgen.snapshot(ch, wb))
+        except Exception as exc:      # noqa: BLE001
+            ctx.violation(hcase, f"history raises {type(exc).__name__}: {exc}"[:200])
+            continue
+        ctx.count(('history-order', k), kind='history-order')
+        if snaps[0] != snaps[1]:
+            ctx.violation(hcase, "the final cell map / cached values depend on the order of the operations",
+                          impl=snaps[1], expected=snaps[0])
+        hcalls.append(('history', [wb.wire(), [[o, i] for o, i in ops]]))
+        hmeta.append((hcase, snaps[0]))
+    if ctx.model and hcalls:
+        for (hcase, snap), ans in zip(hmeta, ctx.model.batch(hcalls)):
+            try:
+                msnap = {i: _canon_model(dec_val(x[1])) for i, x in enumerate(ans[-1][1]) if x[0] == 1}
+            except Exception:      # noqa: BLE001
+                ctx.divergence(hcase, snap, ans, 'Model/Graph.v history entry rejected the input')
+                continue
+            if set(msnap) != set(snap) or any(not same(msnap[i], snap[i]) for i in snap):
+                ctx.divergence(hcase, snap, msnap,
+                               'Model/Graph.v final state of a Build/Evaluate history = ExcelCompiler.cell_map values')
+    if ctx.model and calls:
+        for (case, got, snap), ans in zip(meta, ctx.model.batch(calls)):
+            try:
+                mvals = [dec_val(m) for m in ans[0]]
+                msnap = {i: _canon_model(dec_val(x[1])) for i, x in enumerate(ans[1]) if x[0] == 1}
+            except Exception:      # noqa: BLE001
+                ctx.divergence(case, got, ans, 'Model/C05List.v evaluate_list = ExcelCompiler.evaluate(list)')
+                continue
+            if len(mvals) != len(got) or any(not same(a, b) for a, b in zip(mvals, got)):
+                ctx.divergence(case, got, mvals, 'Model/C05List.v evaluate_list = ExcelCompiler.evaluate(list)')
+            elif set(msnap) != set(snap) or any(not same(msnap[i], snap[i]) for i in snap):
+                ctx.divergence(case, snap, msnap,
+                               'Model/C05List.v final state of evaluate_list = ExcelCompiler.cell_map values')
+    ctx.extra['rule'] += (
+        "; list-model - the same DAG workbooks, a random history of 0-2 single evaluations, then evaluate on a "
+        "list / tuple / generator of 1..2n addresses drawn with repetition in random order: result type kept, "
+        "every position = the cell evaluated alone, the whole answer and the final cell map (built cells, cached "
+        "values) = Model/C05List.v evaluate_list on the extracted machine, and a second compiler given the "
+        "members shuffled with one more repetition ends with the same cell map and cached values; history-order - "
+        "2-6 random Build (_gen_graph: compiled, not evaluated) / Evaluate operations on the cells and the same "
+        "operations shuffled with one repeated, on two fresh compilers: equal final cell maps and cached values, "
+        "= the extracted machine's final state (distinct = distinct (workbook, history, address sequence))")
+
+
 def _canon_model(v):
     if isinstance(v, list):
         return [_canon_model(x) for x in v]
@@ -227,6 +360,7 @@ def run(ctx):
     ensure_impl_on_path()
     _stream_dag(ctx)
     _stream_dag_colb(ctx)
+    _stream_list_model(ctx)
     # oracle-only streams (implementation alone; the reference is the cell evaluated alone in a fresh compiler)
     for stream in (_stream_cse, _stream_tables, _stream_reference, _stream_cse_overlap, _stream_range_ops,
                    _stream_unbounded_history, _stream_cse_sheets, _stream_merged):
